@@ -79,6 +79,12 @@ type Job struct {
 	TrackStdout bool   `json:"track_stdout,omitempty"`
 	StdoutFile  string `json:"stdout_file,omitempty"`
 	TimeoutMs   int    `json:"timeout_ms,omitempty"`
+	// Gates (two-process exploration): before tracked call k (k in GateAt) the tracer creates
+	// <GateDir>/<GateTag>.at.<k> and holds the stopped process until <GateDir>/<GateTag>.go.<k>
+	// appears (continue) or <GateDir>/<GateTag>.kill.<k> (SIGKILL). GateDir lies outside Dir.
+	GateDir string `json:"gate_dir,omitempty"`
+	GateTag string `json:"gate_tag,omitempty"`
+	GateAt  []int  `json:"gate_at,omitempty"`
 }
 
 // Result of a traced run.
@@ -358,6 +364,33 @@ func Trace(job Job) (res Result) {
 							k := idx
 							idx++
 							ts.cur = p
+							if job.GateDir != "" {
+								for _, g := range job.GateAt {
+									if g != k {
+										continue
+									}
+									base := filepath.Join(job.GateDir, fmt.Sprintf("%s.", job.GateTag))
+									os.WriteFile(base+fmt.Sprintf("at.%d", k), []byte(p.call.String()), 0o644)
+									for {
+										if _, err := os.Stat(base + fmt.Sprintf("go.%d", k)); err == nil {
+											break
+										}
+										if _, err := os.Stat(base + fmt.Sprintf("kill.%d", k)); err == nil {
+											res.Reached = true
+											res.Killed = true
+											res.Calls = append(res.Calls, p.call)
+											killAll()
+											break
+										}
+										if time.Now().After(deadline) {
+											res.TimedOut = true
+											killAll()
+											break
+										}
+										time.Sleep(300 * time.Microsecond)
+									}
+								}
+							}
 							switch job.Mode {
 							case "crash":
 								if k == job.K {
